@@ -90,6 +90,24 @@ class C04(TraceCheck):
                                         {"k": "assign", "r0": r0, "r1": r1, "c0": c0, "c1": c1, "block": b,
                                          "bk": "fsarray" if (r0 + c1 + len(b)) % 4 == 0 else "list", "form": "slice2"},
                                         {"k": "read", "r0": 0, "r1": h + 3, "c0": 0, "c1": w}]}
+        # one row of 4..6 columns, every pair (thorough: sampled triples) of assignments from a small set of regions and
+        # blocks - rows made of several runs with content to the right of the next region
+        for w in (4, 5, 6):
+            regs = [(c0, c1) for c0 in range(w) for c1 in range(c0 + 1, w + 1)]
+            def blocks(c0, c1):
+                n_ = c1 - c0
+                return [[srow("p" * n_)], [frow([[[113] * n_, RED]])], [srow("s" * max(0, n_ - 1))]]
+            steps1 = [(r, b) for r in regs for b in blocks(*r)]
+            pairs = [(x, y) for x in steps1 for y in steps1]
+            if tier == "quick":
+                pairs = rng.sample(pairs, min(len(pairs), 1200 if w < 6 else 600))
+            for (r1, b1), (r2, b2) in pairs:
+                st = [{"k": "assign", "r0": 0, "r1": 1, "c0": r1[0], "c1": r1[1], "block": b1, "bk": "list", "form": "slice2"},
+                      {"k": "assign", "r0": 0, "r1": 1, "c0": r2[0], "c1": r2[1], "block": b2, "bk": "list", "form": "slice2"}]
+                if tier == "thorough" and (r1[0] + r2[1]) % 3 == 0:
+                    r3, b3 = rng.choice(steps1)
+                    st.append({"k": "assign", "r0": 0, "r1": 1, "c0": r3[0], "c1": r3[1], "block": b3, "bk": "list", "form": "slice2"})
+                yield {"h": 1, "w": w, "fmt": 0, "steps": st}
         # fsarray(strings, width) construction and whole-row reads
         for k in range(300 if tier == "quick" else 6000):
             w = rng.randrange(0, 5)
